@@ -338,6 +338,18 @@ RAW['C03'] += [
    'intros gen wck ord RC OC P sf always HS HWF HWO HRefl HReflO fuel h edits ch. exact (change_then_bottom_up_keeps_AllValid gen wck ord RC OC P sf always HS HWF HWO HRefl HReflO fuel h edits ch).'),
 ]
 
+RAW['C03'] += [
+  ('C03_requires_of_known_tasks_keep_all_valid',
+   '... and by every session of requires of known tasks in such a store (they execute nothing and change nothing)',
+   TOTAL_BINDERS + """  (forall c env r v, rc_check (RC c) env r v (sf c r v) = Consistent) ->
+  (forall c o, oc_check (OC c) o (oc_stamp (OC c) o) = true) ->
+  forall fuel h ops,
+  let wh := snd (run_history RC OC P always fuel init_world h) in
+  AllValid RC OC wh -> roots_below ord fuel ops -> (forall t, In t (roots ops) -> get_task_output wh t <> None) ->
+  AllValid RC OC (snd (run_history RC OC P always fuel init_world (h ++ [HSession ops])))""",
+   'intros gen wck ord RC OC P sf always HS HWF HWO HRefl HReflO fuel h ops. exact (requires_of_known_tasks_keep_AllValid gen wck ord RC OC P sf always HS HWF HWO HRefl HReflO fuel h ops).'),
+]
+
 RAW['C04'] = [
   ('C04_at_most_once_requires_then_bottom_up',
    'at most once for sessions that MIX the two kinds of build (static class, reflexive checkers, after ANY history): a session of top-down requires followed by a bottom-up build executes no task twice in the WHOLE session - the bottom-up build executes no task twice and none that a require of the same session already executed. MixedOnce.v: the top-down part leaves a consistent set closed under dependencies whose recorded dependencies are all accepted (Valid.v), so the initial scheduling queues none of them and the invariant of OnceAll.v holds when the build starts',
